@@ -250,3 +250,4 @@ mod tests {
       assert_eq!(dbg_to_json("None"), json!({"c":"None","a":[]}));
    }
 }
+
